@@ -8,6 +8,7 @@
 import PV.Model.SftpServer
 import PV.Model.SftpClientInv
 import PV.Model.ClientLockLemmas
+import PV.Model.ListdirIter
 namespace PV.Props.C30
 open PV PV.SftpServer PV.Generated.C30
 
@@ -130,6 +131,28 @@ theorem client_never_waits_forever (maxReq nfiles : Nat) (wfaults sfaults : List
     the whole collection, not a comparison with the oldest entry — is read from the AST of
     `SFTPFile._async_response` on every run. -/
 theorem source_write_status_matched_by_id : writeStatusMatchedById = true := by decide
+
+/-! ## listdir_iter: read-ahead rounds -/
+
+/-- the rounds model instantiated with what the AST of `SFTPClient.listdir_iter` says about the batch list -/
+def listdirCfg (readAheads perReply : Nat) : ListdirIter.Cfg := ⟨readAheads, perReply, listdirIterResetsBatch⟩
+
+/-- **listdir_iter ends and yields every entry exactly once**: for every `read_aheads` ≥ 1, every batch size of the
+    server's answers ≥ 1 and every directory size, each round awaits exactly the answers to the requests it sent
+    (the pending set is empty again after the round), so the iteration never waits for an answer that is not coming,
+    and it stops at the EOF status having yielded all `entries` entries and nothing else.  Depends on the source fact
+    that the list of awaited ids is re-initialised inside the round loop (read from the AST every run). -/
+theorem listdir_iter_complete (readAheads perReply entries fuel : Nat) (hk : 0 < readAheads) (hp : 0 < perReply)
+    (hf : entries < fuel) :
+    ListdirIter.listdirIter (listdirCfg readAheads perReply) entries fuel = .done entries := by
+  have hsrc : listdirIterResetsBatch = true := by decide
+  have := ListdirIter.run_complete (listdirCfg readAheads perReply) hsrc hk hp fuel entries 0 0 hf
+  simpa [ListdirIter.listdirIter] using this
+
+/-- why the source fact matters: without the reset (40 entries, `read_aheads` = 2, 16 per answer) the second round
+    awaits four answers for two requests: the iteration hangs (having yielded only what it read so far). -/
+theorem listdir_iter_without_reset_hangs_witness :
+    ListdirIter.listdirIter ⟨2, 16, false⟩ 40 100 = .hang 40 := by decide
 
 /-! ## the client's lock under channel back-pressure -/
 
